@@ -2,6 +2,7 @@ package sim
 
 import (
 	"sort"
+	"strings"
 	"time"
 
 	ouroboros "github.com/blinklabs-io/gouroboros"
@@ -122,6 +123,24 @@ func watchConn(c *ouroboros.Connection) *connWatch {
 		rt.Log("connection ErrorChan closed")
 	}()
 	return w
+}
+
+// keepAliveTimedOut reports whether a watched connection ended because its own
+// keep-alive exchange timed out. With application callbacks that dwell for
+// seconds the muxer (one bounded queue per protocol, one reader) delivers the
+// keep-alive response late; the connection then ends for a reason that is not
+// the scenario's subject, and the run is inconclusive (as with an expired
+// read deadline).
+func keepAliveTimedOut(ws ...*connWatch) bool {
+	for _, w := range ws {
+		for _, e := range w.errs {
+			if strings.Contains(e.Error(), "keep-alive: timeout") {
+				rt.Hit("inconclusive.keep-alive-timeout")
+				return true
+			}
+		}
+	}
+	return false
 }
 
 func sortedU16(xs []uint16) []uint16 {
